@@ -44,13 +44,14 @@ template <class T> static void run_T(Choice &c, Ctx &cx)
     static const char *tn[] = {"NOTRANS", "TRANS", "CONJ"};
     cx.label(std::string("trans=") + tn[o.trans]); cx.label(o.nr ? "storage=NR" : "storage=NC"); cx.label(o.equil ? "Equil=YES" : "Equil=NO");
     cx.label(fmt("refine=%d", (int)o.refine)); cx.label("values=" + G.vkind);
+    if (cx.is_known("F-SS") && maybe_exactly_singular(G)) { cx.exclude("F-SS"); cx.label("exactly-singular(excluded)"); return; }
     // Known finding F07: complex, row storage, Trans=CONJ solves A^T x = b instead of A^H x = b.
     bool f07_class = cplx && o.nr && o.trans == CONJ;
     if (f07_class && cx.is_known("F07")) { cx.exclude("F07"); o.trans = TRANS; cx.label("F07-class(remapped to TRANS)"); }
 
     Dense<W> A0 = dense_of(e.S);
     std::vector<T> val0 = e.S.val, B0 = e.B; std::vector<int_t> idx0 = e.S.idx, ptr0 = e.S.ptr;
-    vf_case_begin(0xA5);
+    vf_case_begin(cx.fill(0xA5));
     apply_tuning(o.tune);
     apply_opts(o, e.so);
     if (o.colperm == MY_PERMC) e.perm_c = o.my_perm_c;
@@ -65,7 +66,7 @@ template <class T> static void run_T(Choice &c, Ctx &cx)
     if (!o.equil && eq != 'N') { bail(); VF_FAIL(cx, "equed", "Equil=NO but equed='%c'", eq); }
     cx.label(std::string("equed=") + eq);
     if (info >= 1 && info <= n) {   // numerically singular: C04's business; here only the leak / mutation clauses
-        cx.label("info>0");
+        cx.label("singular-return");
         e.teardown();
         ledger_clean(cx, "after singular return of gssvx");
         return;
